@@ -6,7 +6,7 @@ CHECKS = {
  # id: (engine, category, technique, level text, level note, design ref)
  'C02': ('icmc', 'model_checking',
          'explicit-state BFS over IBTP block histories on the real executor in lock-step with a reference model',
-         'All block histories up to depth 4 (thorough 5) over 13-25 block kinds (requests/receipts with next/duplicate/future/zero/huge/unknown index on 4 ordered pairs incl. a service sending to itself, mixed packing, unrelated txs, direct calls of every public interchain-contract method by an outsider), audit off and on; after every block every receipt verdict, both-side counters, index records and delivery sets are compared with the model, and the real InterchainRouter (GetInterchainTxWrappers over the replica's ledger) must hand each chain exactly its delivery set.',
+         'All block histories up to depth 4 (thorough 5) over 13-25 block kinds (requests/receipts with next/duplicate/future/zero/huge/unknown index on 4 ordered pairs incl. a service sending to itself, mixed packing, unrelated txs, direct calls of every public interchain-contract method by an outsider), audit off and on; after every block every receipt verdict, both-side counters, index records and delivery sets are compared with the model, and the real InterchainRouter (GetInterchainTxWrappers over the ledger of the replica) must hand each chain exactly its delivery set.',
          'memkv for goleveldb; all proofs valid (C03 covers proofs); 3 service pairs', '5 C02'),
  'C04': ('icmc', 'model_checking',
          'explicit-state BFS over request/receipt/timeout block histories on the real executor against the protocol FSM',
